@@ -13,6 +13,8 @@ from pathlib import Path
 
 VERIF = Path(__file__).resolve().parent.parent
 REPO = Path(os.environ.get('VERIF_REPO', '/repo')).resolve()
+# scratch runs against seeded changes redirect evidence / replays so that they never touch the committed ones
+OUT = Path(os.environ.get('VERIF_OUT', str(VERIF))).resolve()
 
 EXIT_OK, EXIT_VIOLATION, EXIT_HARNESS = 0, 1, 2
 
@@ -195,14 +197,14 @@ def write_evidence(pid, tier, rec, rule, assumptions, wall_s, violations, level=
         'wall_s': round(wall_s, 2),
         'violations': violations,
     }
-    out = VERIF / 'evidence'
+    out = OUT / 'evidence'
     out.mkdir(exist_ok=True)
     (out / f'{pid}.json').write_text(json.dumps(ev, indent=1, default=repr) + '\n')
     return ev
 
 
 def save_replay(pid, case, sig, detail):
-    d = VERIF / 'replays' / pid
+    d = OUT / 'replays' / pid
     d.mkdir(parents=True, exist_ok=True)
     payload = {'property': pid, 'sig': sig, 'detail': detail[:4000], 'case': case}
     path = d / f'{h(case)}.json'
